@@ -15,6 +15,8 @@ func Run(c *fw.Ctx) {
 	// activated, both orders) then the seeded list
 	c.Cases("b.directed", c.N(len(bTable)*8, len(bTable)*8), func(cs *fw.Case) { runB(cs, cs.Index, true) })
 	c.Cases("b", c.N(len(bTable)*4000, len(bTable)*100000), func(cs *fw.Case) { runB(cs, cs.Index, false) })
+	// (b) LDL+ForcePD on indefinite inputs whose pivots keep their magnitude
+	c.Cases("b.forcepd", c.N(6000, 150000), func(cs *fw.Case) { runBForcePD(cs, cs.Index) })
 	// (c) differential against the routine's own float result
 	c.Cases("c.directed", len(cTable)*8, func(cs *fw.Case) { runC(cs, cs.Index, true) })
 	c.Cases("c", c.N(len(cTable)*1500, len(cTable)*40000), func(cs *fw.Case) { runC(cs, cs.Index, false) })
